@@ -679,6 +679,67 @@ func concurrentWritesOneWriter(run *evid.Run, idx int) {
 	}
 }
 
+// otherDigestAlgorithms: a registry that addresses content by sha384 and sha512 digests as well (the
+// in-memory registry does not; the protocol and the client's verifying reader do). Reads by such digests
+// give the same bytes, read to the end without an error, through client and server as directly.
+func otherDigestAlgorithms(run *evid.Run, idx int) {
+	content := []byte(fmt.Sprintf("content addressed by another algorithm %d %s", idx, strings.Repeat("x", idx%50)))
+	alt := idx%2 == 0
+	d := ociregistry.Digest(model.DigestOther(content, alt))
+	if idx%5 == 4 {
+		d = ociregistry.Digest(model.Digest(content))
+	}
+	mk := func(mt string) (ociregistry.BlobReader, error) {
+		return ocimem.NewBytesReader(content, ociregistry.Descriptor{MediaType: mt, Digest: d, Size: int64(len(content))}), nil
+	}
+	backend := &ociregistry.Funcs{
+		GetBlob_: func(ctx context.Context, repo string, dg ociregistry.Digest) (ociregistry.BlobReader, error) {
+			if dg != d {
+				return nil, ociregistry.ErrBlobUnknown
+			}
+			return mk("application/octet-stream")
+		},
+		GetManifest_: func(ctx context.Context, repo string, dg ociregistry.Digest) (ociregistry.BlobReader, error) {
+			if dg != d {
+				return nil, ociregistry.ErrManifestUnknown
+			}
+			return mk("application/x-opaque")
+		},
+		GetTag_: func(ctx context.Context, repo, tag string) (ociregistry.BlobReader, error) { return mk("application/x-opaque") },
+		ResolveBlob_: func(ctx context.Context, repo string, dg ociregistry.Digest) (ociregistry.Descriptor, error) {
+			return ociregistry.Descriptor{MediaType: "application/octet-stream", Digest: d, Size: int64(len(content))}, nil
+		},
+	}
+	top, closeAll := stack.HTTP(backend, stack.HTTPOpts{})
+	defer closeAll()
+	if idx%3 == 2 {
+		t2, c2 := stack.HTTP(top, stack.HTTPOpts{})
+		defer c2()
+		top = t2
+	}
+	a, b := model.NewEnv(backend), model.NewEnv(top)
+	for _, op := range []*model.Op{
+		{Kind: "GetBlob", Repo: "od/r", Digest: string(d)},
+		{Kind: "GetManifest", Repo: "od/r", Digest: string(d)},
+		{Kind: "GetTag", Repo: "od/r", Tag: "t"},
+		{Kind: "GetBlobRange", Repo: "od/r", Digest: string(d), O0: 2, O1: 9},
+	} {
+		if op.Kind == "GetBlobRange" {
+			continue // the function table above has no range reads; whole reads are what is verified
+		}
+		var oa, ob *model.Outcome
+		run.Eval(1)
+		if !run.Case("total/other-digest", map[string]any{"op": op.String()}, func() { oa, ob = a.Exec(op), b.Exec(op) }) {
+			continue
+		}
+		run.Count("reads_by_other_digest_algorithms", 1)
+		run.Distinct(fmt.Sprintf("other-digest/%s/%s", op.Kind, strings.SplitN(string(d), ":", 2)[0]))
+		if what, class := model.Diff(oa, ob, true); what != "" {
+			run.Violation("differs/"+class+"/"+op.Kind+"/other-digest-algorithm", fmt.Sprintf("%s: directly %s; through client and server %s (%s)", op, oa, ob, what), map[string]any{"op": op, "direct": oa.String(), "through_http": ob.String(), "http_error": ob.Err, "read_error": ob.ReadErr})
+		}
+	}
+}
+
 func main() {
 	run := evid.Start("C03", "exploration")
 	run.SetRule("a case is one history of Interface calls (pushes incl. composite chunked uploads with resume, mounts, manifests incl. 127/128/128+1 KiB ones, deletes, reads, ranges, listings with start points) executed on twin registries: ocimem directly and ociclient→ociserver(→second hop)→recording ocimem, under one of the 16 server option sets × {1,2} hops × ocidebug placement × {in-process transport, loopback}; names and tags are drawn from routing words (blobs, manifests, uploads, tags/list, referrers, v2). " +
@@ -811,6 +872,10 @@ func main() {
 		concurrentWritesOneWriter(run, i)
 	}
 	run.FloorCounter("concurrent_writer_scenarios", 40)
+	for i := 0; i < 60; i++ {
+		otherDigestAlgorithms(run, i)
+	}
+	run.FloorCounter("reads_by_other_digest_algorithms", 150)
 	run.FloorCounter("large_listings", 8)
 	run.FloorCounter("backend_calls", 5000)
 	run.FloorCounter("errors_relayed", 500)
